@@ -14,7 +14,10 @@ CHECKS = {
              "budget, the real simplify_chained_calls is run on each, and TLC (spec/TracePass.tla) judges every "
              "recorded (in, out) pair against the relational specification: FV(out) within FV(in) and Eval(out, d) = "
              "Eval(in, d) on every model dataset d on which the original evaluates without error (spec/Sem.tla). "
-             "Exhaustive within the budgets, seeded random walks beyond.",
+             "Exhaustive within the budgets, seeded random walks beyond. Design level: spec/Simplify.tla models the "
+             "simplifier as a rewriting system (one rule per case of the implementation, capture-avoiding substitution) "
+             "and TLC checks Preserve and Scoped on every reachable term of every program of the bounded grammar; with "
+             "the deviation switch Naive = TRUE it must (and does) find the capture counterexample.",
         ref="DESIGN.md 6 (C02), 3.2-3.4, 4",
         technique="TLA+ term algebra + denotational semantics; TLC-generated programs replayed into the real "
                   "simplifier; TLC trace validation of (in,out) pairs against the relational spec"),
@@ -22,7 +25,8 @@ CHECKS = {
         text="TLC enumerates chains of Select/Where/SelectMany stages whose earlier stages package values (tuple, list, "
              "dict, nested, packaged sequences) and whose later stages only project with constants; the real simplifier "
              "output is judged by TLC: no more packaging nodes than the final stage's result expression has and no "
-             "constant projection of a literal left (ShapeOK), plus C02's clauses.",
+             "constant projection of a literal left (ShapeOK), plus C02's clauses. Design level: TLC checks "
+             "NormalFormShape on every normal form of spec/Simplify.tla over the chain family.",
         ref="DESIGN.md 6 (C14)",
         technique="TLC-generated packaging chains replayed into the real simplifier; TLC trace validation of the "
                   "normal-form shape predicate"),
@@ -30,7 +34,9 @@ CHECKS = {
         text="Same loop as C02 over the projection family (variable, negative, slice, out-of-range, absent-key selectors "
              "in every position) and the other families: TLC judges that the simplifier returned a well-formed term that "
              "unparses and compiles and preserves meaning, or raised FuncADLIndexError where an out-of-range constant "
-             "index exists; any other exception or a timeout is a rejection.",
+             "index exists; any other exception or a timeout (CPU time) is a rejection. Design level: TLC checks on "
+             "spec/Simplify.tla that every reachable term is well-formed and bounded and (liveness, weak fairness) that "
+             "rewriting terminates.",
         ref="DESIGN.md 6 (C18)",
         technique="TLC-generated programs replayed into the real simplifier under a per-case timeout; TLC trace "
                   "validation of totality / well-formedness clauses"),
